@@ -1,9 +1,15 @@
 package props
 
 import (
+	"fmt"
 	"math"
 	"math/big"
+	"runtime"
+	"sort"
+	"strconv"
 	"strings"
+	"sync"
+	"sync/atomic"
 	"testing"
 
 	"github.com/db47h/decimal"
@@ -943,4 +949,144 @@ func TestC15Grid(t *testing.T) {
 		}
 	}
 	h.AddExtra("C15", "stray_digit_depth_sweep_cases", cnt)
+	c15ShortDecimalSweep(t)
+	c15SetFloatIntoMaxPrec(t)
+}
+
+// c15SetFloatIntoMaxPrec: SetFloat of 1.5 x 2^(+-(2^20+70)) into a receiver of precision MaxPrec: the conversion is
+// exact (every binary float is a finite decimal), the receiver keeps precision MaxPrec and its mode. The only receiver
+// precision at which a temporary prec+1 does not fit, and exponents beyond any size at which an implementation might
+// stop converting exactly. Oracle: math/big integers (3 * 2^2^20, resp. 3 * 5^(2^20+2) scaled). The negative exponent
+// costs about 9 s and runs in the thorough tier only.
+func c15SetFloatIntoMaxPrec(t *testing.T) {
+	es := []int{1<<20 + 70}
+	if h.Thorough() {
+		es = append(es, -(1<<20 + 70))
+	}
+	for _, e := range es {
+		f := new(big.Float).SetMantExp(big.NewFloat(1.5), e) // 3 * 2^(e-1)
+		z := new(decimal.Decimal).SetPrec(decimal.MaxPrec).SetMode(decimal.ToZero)
+		z.SetFloat(f)
+		var wantDigits string
+		var wantExp int64
+		if e > 0 {
+			v := new(big.Int).Lsh(big.NewInt(3), uint(e-1))
+			wantDigits = v.String()
+			wantExp = int64(len(wantDigits))
+		} else {
+			// 3 / 2^k = 3 * 5^k / 10^k with k = 1 - e
+			k := int64(1 - e)
+			v := new(big.Int).Exp(big.NewInt(5), big.NewInt(k), nil)
+			v.Mul(v, big.NewInt(3))
+			wantDigits = v.String()
+			wantExp = int64(len(wantDigits)) - k
+		}
+		wantDigits = strings.TrimRight(wantDigits, "0")
+		got := h.Read(z)
+		c := C15Case{Op: "setfloat", FM: "3", FE: e - 1, FP: 53, P: decimal.MaxPrec, M: uint8(decimal.ToZero)}
+		o := &h.Obs{}
+		o.Label("setfloat-into-maxprec")
+		o.NonTrivial()
+		switch {
+		case got.Malformed != "":
+			h.ReportGridFail(t, "C15", h.Failf("malformed", "SetFloat(3*2^%d) at precision MaxPrec: %v", e-1, got.Malformed), mustJSON(c))
+		case got.Prec != decimal.MaxPrec || got.Mode != uint8(decimal.ToZero):
+			h.ReportGridFail(t, "C15", h.Failf("attributes", "SetFloat(3*2^%d) into a receiver of precision MaxPrec, ToZero: precision %d, mode %v afterwards", e-1, got.Prec, model.Mode(got.Mode)), mustJSON(c))
+		case got.Form != model.Finite || got.Neg || got.Digits != wantDigits || got.Exp != wantExp || model.Acc(got.Acc) != model.Exact:
+			h.ReportGridFail(t, "C15", h.Failf("value", "SetFloat(3*2^%d) at precision MaxPrec: %d digits, exponent %d, accuracy %v (first digits %s); want the exact value: %d digits, exponent %d (first digits %s)", e-1, len(got.Digits), got.Exp, model.Acc(got.Acc), h.FirstN(got.Digits, 30), len(wantDigits), wantExp, h.FirstN(wantDigits, 30)), mustJSON(c))
+		}
+		h.RecordGrid("C15", o, c)
+	}
+}
+
+// c15ShortDecimalSweep: Float64 of w x 10^e for 5..16-digit integers w and decimal exponents over -45..-1 and 15..44
+// (the region around the classic exact-conversion window |e| <= 22 (+15), where conversions switch algorithms) against
+// strconv.ParseFloat of the same literal, which is correctly rounded. An enumerated sweep on all cores: the values come
+// from a fixed multiplicative sequence, not from a random source. Returned accuracy = sign(returned - x), from math/big.
+// Inside the zone of known finding F-10 (x next to the midpoint of two floats) the other neighbour is accepted.
+func c15ShortDecimalSweep(t *testing.T) {
+	total := 1500000
+	if h.Thorough() {
+		total = 24000000
+	}
+	exps := []int{}
+	for e := -45; e <= -1; e++ {
+		exps = append(exps, e)
+	}
+	for r := 0; r < 3; r++ {
+		for e := 15; e <= 44; e++ {
+			exps = append(exps, e)
+		}
+	}
+	workers := runtime.GOMAXPROCS(0)
+	type bad struct {
+		c   C15Case
+		msg string
+	}
+	var mu sync.Mutex
+	var fails []bad
+	var zone, inexact int64
+	var wg sync.WaitGroup
+	for wk := 0; wk < workers; wk++ {
+		wg.Add(1)
+		go func(wk int) {
+			defer wg.Done()
+			x, m := new(decimal.Decimal), new(decimal.Decimal).SetPrec(19)
+			v, p10 := new(big.Int), new(big.Int)
+			for i := wk; i < total; i += workers {
+				nd := 5 + i%12
+				w := (uint64(i)*0x9E3779B97F4A7C15 + 0x632BE59BD9B4E019) % h.Pow10u(nd)
+				if lo := h.Pow10u(nd - 1); w < lo {
+					w += lo
+				}
+				e := exps[(i/12)%len(exps)]
+				lit := strconv.FormatUint(w, 10) + "e" + strconv.Itoa(e)
+				want, err := strconv.ParseFloat(lit, 64)
+				if err != nil {
+					continue
+				}
+				m.SetUint64(w)
+				x.SetPrec(19).SetMantExp(m, e)
+				got, acc := x.Float64()
+				// sign(got - x) in integers: x = w*10^e
+				var cmp int
+				gr, _ := new(big.Float).SetFloat64(got).Rat(nil)
+				if e >= 0 {
+					v.Mul(v.SetUint64(w), p10.Exp(big.NewInt(10), big.NewInt(int64(e)), nil))
+					cmp = gr.Cmp(new(big.Rat).SetInt(v))
+				} else {
+					cmp = gr.Cmp(new(big.Rat).SetFrac(v.SetUint64(w), p10.Exp(big.NewInt(10), big.NewInt(int64(-e)), nil)))
+				}
+				if cmp != 0 {
+					atomic.AddInt64(&inexact, 1)
+				}
+				c := C15Case{Op: "float64", X: h.Spec{F: "f", D: strings.TrimRight(strconv.FormatUint(w, 10), "0"), E: int64(nd + e), P: 19}}
+				var msg string
+				switch {
+				case int(acc) != cmp:
+					msg = fmt.Sprintf("Float64(%s) = (%v, %v): sign(returned - x) = %d", lit, got, acc, cmp)
+				case got != want:
+					if floatNearMidpoint(c) && (got == math.Nextafter(want, math.Inf(1)) || got == math.Nextafter(want, math.Inf(-1))) {
+						atomic.AddInt64(&zone, 1) // known finding F-10
+						continue
+					}
+					msg = fmt.Sprintf("Float64(%s) = %v, correctly rounded (strconv.ParseFloat) %v", lit, got, want)
+				default:
+					continue
+				}
+				mu.Lock()
+				fails = append(fails, bad{c, msg})
+				mu.Unlock()
+				return
+			}
+		}(wk)
+	}
+	wg.Wait()
+	if len(fails) > 0 {
+		sort.Slice(fails, func(i, j int) bool { return fails[i].msg < fails[j].msg })
+		h.ReportGridFail(t, "C15", h.Failf("short-decimal", "%s", fails[0].msg), mustJSON(fails[0].c))
+	}
+	h.AddExtra("C15", "short_decimal_sweep_cases", total)
+	h.AddExtra("C15", "short_decimal_sweep_inexact", int(inexact))
+	h.AddExtra("C15", "short_decimal_sweep_in_known_zone_other_neighbour", int(zone))
 }
